@@ -45,6 +45,8 @@ def sites(prog):
                     out.append(("win", (stmts, i, 3, j)))
             elif k == "call":
                 out.append(("callargs", (stmts, i)))
+                out.append(("sizearg", (stmts, i)))
+                out.append(("aliaschain", (stmts, i)))
 
     walk(prog["main"]["body"], "main")
     for c in prog["callees"]:
@@ -111,6 +113,41 @@ def perturb(prog, muts):
                     args[a], args[b] = args[b], args[a]
             elif args and args[0].isdigit():
                 args[0] = "0"
+        elif kind == "sizearg":
+            # a size argument becomes a compound expression that may be zero or negative
+            stmts, i = path
+            cal = next((c for c in prog["callees"] if c["name"] == stmts[i][1]), None)
+            szs = [a["name"] for a in prog["main"]["args"] if a["kind"] == "size"]
+            if cal is None:
+                continue
+            pos = [j for j, a in enumerate(cal["args"]) if a["kind"] == "size"]
+            if not pos:
+                continue
+            j = pos[k2 % len(pos)]
+            base = szs[k2 % len(szs)] if szs else stmts[i][2][j]
+            stmts[i][2][j] = [f"{base} - 1", f"{base} / 2", f"{base} % 4", f"{base} - 2"][k2 % 4]
+        elif kind == "aliaschain":
+            # pass a window of a window together with another window of the same buffer
+            stmts, i = path
+            cal = next((c for c in prog["callees"] if c["name"] == stmts[i][1]), None)
+            if cal is None:
+                continue
+            pos = [j for j, a in enumerate(cal["args"]) if a["kind"] in ("window",) and len(a["dims"]) == 1 and a["dims"][0].isdigit()]
+            if len(pos) < 2:
+                continue
+            ja, jb = pos[0], pos[1]
+            n = min(int(cal["args"][ja]["dims"][0]), int(cal["args"][jb]["dims"][0]))
+            if int(cal["args"][ja]["dims"][0]) != n or int(cal["args"][jb]["dims"][0]) != n:
+                continue
+            root = stmts[i][2][ja].split("[")[0]
+            d = 2 * n + 2
+            new = [["alloc", "alx", cal["args"][ja]["prec"], [str(d)], "DRAM"],
+                   ["for", "al_i", "0", str(d), [["assign", "alx", ["al_i"], "0.0"]], "seq"],
+                   ["window", "al0", "alx", [["iv", "1", str(d - 1)]]],
+                   ["window", "al1", "al0", [["iv", str(k2 % 2), str(k2 % 2 + n)]]]]
+            stmts[i][2][ja] = "al1"
+            stmts[i][2][jb] = [f"alx[{1 + k2 % 2}:{1 + k2 % 2 + n}]", f"al0[0:{n}]", f"alx[1:{1 + n}]"][k2 % 3]
+            stmts[i:i] = new
         elif kind == "strengthen":
             (c,) = path
             szs = [a["name"] for a in c["args"] if a["kind"] in ("size", "index")]
@@ -179,7 +216,7 @@ def check_case(case):
 def case_strategy():
     return st.fixed_dictionaries(
         {
-            "prog": programs(max_stmts=10, config_pct=10),
+            "prog": st.one_of(programs(max_stmts=10, config_pct=10), programs(max_stmts=8, config_pct=10, calls=True, force_call=True)),
             "muts": st.lists(st.tuples(st.integers(0, 60), st.integers(0, 11)).map(list), min_size=0, max_size=2),
             "pick": st.integers(0, 30),
             "layout": st.integers(0, 5),
